@@ -105,7 +105,7 @@ pub const LOOP_ALTS: usize = 6;
 
 pub fn alternatives(s: &Sk) -> usize {
     match s {
-        Sk::Say => 1,
+        Sk::Say => 3,
         Sk::If(_, _, e) => COND_ALTS.len() + if e.is_some() { 1 } else { 0 },
         Sk::Loop(..) => LOOP_ALTS,
         Sk::Break | Sk::Continue => 1,
@@ -162,7 +162,7 @@ fn nth_dev(b: &[Sk], mut k: usize) -> (usize, usize) {
 }
 
 pub fn render(prog: &[Sk], dev: Dev, close_last: bool) -> String {
-    let mut out = String::from("rock q with 1, 1\nrock p with 1, 1, 1\nrock ea\nrock ne with 0\nput true into tv\nput 0 into cn\n");
+    let mut out = String::from("rock q with 1, 1\nrock p with 1, 1, 1\nrock ea\nrock ne with 0\nput true into tv\nput 0 into cn\nboom takes k\nsay - true\n\n");
     let mut node = 0usize;
     let mut marker = 0usize;
     fn block(b: &[Sk], out: &mut String, node: &mut usize, marker: &mut usize, dev: Dev) {
@@ -176,8 +176,9 @@ pub fn render(prog: &[Sk], dev: Dev, close_last: bool) -> String {
             match s {
                 Sk::Say => {
                     *marker += 1;
-                    if alt.is_some() {
-                        out.push_str("say - true\n");
+                    if let Some(a) = alt {
+                        // an erroring statement: directly, through a call statement, through a call in an expression
+                        out.push_str(["say - true\n", "boom taking 1\n", "say boom taking 1\n"][a]);
                     } else {
                         out.push_str(&format!("say {}\n", marker));
                     }
